@@ -298,6 +298,11 @@ def async_case(draw, driver=None):
             inj.append({"t": -0.01, "kind": "stale-answer", "value": v})
         else:
             inj.append({"t": -0.01, "kind": "stale-answer", "value": v})
+    if drv == "luba" and draw(st.integers(0, 2)) == 0:
+        # the gateway throws in an ADD DALI FRAME error response (buffer full / bus busy) while exchanges are running
+        for _ in range(draw(st.integers(1, 3))):
+            inj.append({"t": draw(st.sampled_from([0.0005, 0.003, 0.009, 0.016, 0.031, 0.05, 0.064, 0.09, 0.125])),
+                        "kind": "txerr", "code": draw(st.sampled_from([1, 2, 3, 255]))})
     if drv == "hasseb" and draw(st.booleans()):
         # the hasseb firmware keeps sending 'no data available' reports between the meaningful ones
         for _ in range(draw(st.integers(1, 6))):
@@ -424,6 +429,8 @@ def features(case):
         f.append("sequence-with-sleep-or-progress-items")
     if any(x["kind"] == "stale-answer" for x in case.get("inject", [])):
         f.append("stale-answer")
+    if any(x["kind"] == "txerr" for x in case.get("inject", [])):
+        f.append("luba-error-response-during-an-exchange")
     if any(x["kind"] == "idle" for x in case.get("inject", [])):
         f.append("hasseb-idle-reports")
     for c in case["callers"]:
